@@ -11,6 +11,7 @@
 package interp
 
 import (
+	"fmt"
 	"go/token"
 
 	"golang.org/x/tools/go/ssa"
@@ -23,6 +24,12 @@ type gor struct {
 	done      bool
 	started   bool
 	blockedAt int // value of interpreter.progress when it last found itself blocked (-1: never)
+	timerWait bool // blocked in a select / receive that has an armed timer channel
+	noPreempt int  // >0: inside an operation that already took its decision point
+	// waitReady: set while the goroutine is blocked in an operation whose
+	// readiness can be told without side effects (nil: unknown - assume it may
+	// be able to go on). Used only to avoid pointless preemption targets.
+	waitReady func() bool
 	panicVal  interface{}
 	// saved per-goroutine interpreter context
 	cur   ssa.Instruction
@@ -98,6 +105,18 @@ func (i *interpreter) handOff(from *gor) {
 
 // switchTo transfers the baton without waiting to get it back.
 func (i *interpreter) switchTo(g *gor) {
+	if i.w != nil && i.w.usesSched && len(i.w.schedLog) < 400 {
+		from := "?"
+		if i.curG != nil {
+			from = fmt.Sprintf("g%d %s", i.curG.id, i.curG.name)
+			if i.curG.done {
+				from += " (finished)"
+			} else {
+				from += " @ " + i.w.where()
+			}
+		}
+		i.w.schedLog = append(i.w.schedLog, fmt.Sprintf("%s -> g%d %s", from, g.id, g.name))
+	}
 	i.curG = g
 	i.restoreCtx(g)
 	g.resume <- struct{}{}
@@ -177,6 +196,16 @@ func (i *interpreter) blockUntil(op func() bool, what string, c *chanv) {
 	i.progress++
 }
 
+// blockedOn runs f (a blocking wait) with the goroutine's side-effect-free
+// readiness test registered.
+func (i *interpreter) blockedOn(ready func() bool, f func()) {
+	me := i.curG
+	old := me.waitReady
+	me.waitReady = ready
+	defer func() { me.waitReady = old }()
+	f()
+}
+
 // blockUntilOr is blockUntil with a last resort tried when nobody can make progress.
 func (i *interpreter) blockUntilOr(op func() bool, lastResort func() bool, what string, c *chanv) {
 	for !op() {
@@ -209,7 +238,7 @@ func (i *interpreter) maybePreempt(mu *value) {
 	if w.preemptLeft <= 0 || w.local != nil {
 		return
 	}
-	if len(w.preemptOn) > 0 && !w.preemptOn[mu] {
+	if (len(w.preemptOn) > 0 || w.preemptChans) && !w.preemptOn[mu] {
 		return // the harness named the locks of the shared objects: others belong to one goroutine
 	}
 	other := false
@@ -233,6 +262,8 @@ func (i *interpreter) maybePreempt(mu *value) {
 // joinAll lets every other goroutine run to completion (the engine's
 // counterpart of WaitGroup.Wait, which is a no-op in the model).
 func (i *interpreter) joinAll() {
+	i.mainWaiting = true
+	defer func() { i.mainWaiting = false }()
 	for {
 		pending := false
 		for _, g := range i.gors {
@@ -266,6 +297,121 @@ func (i *interpreter) yieldForce() bool {
 	for k := 1; k < n; k++ {
 		g := i.gors[(me.id+k)%n]
 		if !g.done {
+			next = g
+			break
+		}
+	}
+	if next == nil {
+		return false
+	}
+	i.saveCtx(me)
+	i.switchTo(next)
+	<-me.resume
+	if i.abortAll {
+		panic(goroutineAbort{})
+	}
+	i.curG = me
+	i.restoreCtx(me)
+	i.raiseGoroutinePanics()
+	return true
+}
+
+// ---------------------------------------------------------------------------
+// Schedules at synchronisation-operation granularity (opt-in per harness:
+// vPreemptAtChans(n)).
+//
+// For code whose goroutines communicate through channels, contexts and
+// sync.Map (association teardown: node.Serve, PFCPConn.Serve, the reader
+// goroutine, the heartbeat monitor), every channel send / receive / close,
+// every select and every sync.Map operation executed while another
+// interpreted goroutine could run is a decision point: go on, or hand the
+// baton to ONE of the other eligible goroutines (which one is part of the
+// decision). The decisions are fresh 1-bit inputs, so the exploration forks
+// over them like over any branch; at most n preemptions are taken on a path
+// (context-switch bound). Switches at blocking operations are free and go to
+// the next eligible goroutine in FIFO order. A select with several ready cases
+// forks over which one is taken (Go picks at random). Interleavings finer than
+// synchronisation operations (unsynchronised shared accesses) are NOT
+// explored and are outside any claim made with this mode.
+
+func (i *interpreter) maybePreemptSync() {
+	w := i.w
+	if !w.preemptChans || w.preemptLeft <= 0 || w.local != nil || i.curG.noPreempt > 0 {
+		return
+	}
+	me := i.curG
+	var cands []*gor
+	n := len(i.gors)
+	for k := 1; k < n; k++ {
+		g := i.gors[(me.id+k)%n]
+		if g.done || g.blockedAt == i.progress {
+			continue
+		}
+		if g.id == 0 && i.mainWaiting {
+			continue
+		}
+		if g.waitReady != nil && !g.waitReady() {
+			continue // still blocked: handing it the baton would change nothing
+		}
+		cands = append(cands, g)
+	}
+	for _, g := range cands {
+		t := w.newInput("sched_yield", 1)
+		if w.decideFresh(t) {
+			w.preemptLeft--
+			w.preempted++
+			i.yieldTo(g)
+			return
+		}
+	}
+}
+
+// yieldTo hands the baton to g voluntarily (the caller stays eligible).
+func (i *interpreter) yieldTo(g *gor) {
+	me := i.curG
+	i.saveCtx(me)
+	i.switchTo(g)
+	<-me.resume
+	if i.abortAll {
+		panic(goroutineAbort{})
+	}
+	i.curG = me
+	i.restoreCtx(me)
+	i.raiseGoroutinePanics()
+}
+
+// settle lets the other goroutines run until nobody can make progress any
+// more (timers fire when everybody else is blocked, as always); unlike
+// joinAll it does not demand that they finish.
+func (i *interpreter) settle() {
+	i.mainWaiting = true
+	defer func() { i.mainWaiting = false }()
+	for rounds := 0; rounds < 100000; rounds++ {
+		// main stays eligible (voluntary yield): the last goroutine to block hands
+		// the baton back instead of finding itself deadlocked. A goroutine that
+		// was preempted is still eligible and runs on the next round.
+		if i.yieldHow(true) {
+			continue
+		}
+		// nobody is eligible: a goroutine waiting on a timer may go on
+		before := i.progress
+		if !i.yieldToTimerWaiter() || i.progress == before {
+			return
+		}
+	}
+	panic(blockEvent{"livelock: the goroutines never settle", nil})
+}
+
+// yieldToTimerWaiter hands the baton to the next goroutine that is blocked in
+// a select or receive with an armed timer channel.
+func (i *interpreter) yieldToTimerWaiter() bool {
+	me := i.curG
+	me.blockedAt = i.progress
+	n := len(i.gors)
+	var next *gor
+	for k := 1; k < n; k++ {
+		g := i.gors[(me.id+k)%n]
+		if !g.done && g.timerWait {
 			next = g
 			break
 		}
